@@ -6,7 +6,7 @@ The harness list is generated from FORMATS below and cross-checked on every run 
 there and absent here gives a job that cannot be built (=> UNDECIDED, exit 2), never a silent pass.
 """
 import os, re
-from vdriver import Job, REPO
+from vdriver import Job, REPO, ext_jobs, ext_meta
 
 # name: (bpp, kind)   kind: rgb = direct colour/alpha fields, color/gray = palette index
 FORMATS = [
@@ -174,6 +174,12 @@ def misc_jobs(tier):
     return js
 
 
+# extension modules merged into this property's job list (vdriver.ext_jobs / ext_meta)
+EXT = [
+    ("C10_msc", None),
+]
+
+
 def jobs(tier):
     js = table_jobs() + misc_jobs(tier)
     for f, bpp, kind in FORMATS:
@@ -208,7 +214,7 @@ def jobs(tier):
         js.append(Job("readers_agree." + f, "C10/readers_agree.c", defines={"VF": f, "VF_W": 4}, kind="bounded",
                       bound="8x4 image, scanline width 4 at every x and line", functions=["fetch_scanline_" + f, "fetch_pixel_" + f],
                       domain="every memory content; fetch_scanline(x,line,4)[k] == fetch_pixel(x+k,line)", unwind=6, timeout=1200, min_props=2))
-    return js
+    return js + ext_jobs(tier, EXT)
 
 
 META = {
@@ -232,3 +238,4 @@ META = {
         "MEMSET_WRAPPED and the accessor use outside pixman-access.c (pixman-bits-image.c, pixman-edge-accessors.c)",
     ],
 }
+META = ext_meta(META, EXT)
